@@ -505,7 +505,9 @@ def np_split(interp, name, args, kw, st, node):
         ok = False
         if len(tot.lin) == 1 and tot.c == 0 and isinstance(tot.lin[0][0], tuple) and tot.lin[0][0][0] == "t" and tot.lin[0][0][1].op == "totalrows":
             src = tot.lin[0][0][1].args[0]
-            if isinstance(L, Term) and L.op == "comp" and len(L.args) == 3 and L.args[1] == src:
+            ssh_ = interp.term_shape(src) if hasattr(interp, "term_shape") else None
+            over_src = isinstance(L, Term) and L.op == "comp" and len(L.args) == 3 and (L.args[1] == src or (ssh_ is not None and len(ssh_) >= 1 and ssh_[0].known() and L.args[1] == T("range", A.dim_term(Dim(0)), A.dim_term(ssh_[0]))))
+            if over_src:
                 e = L.args[2]
                 want = T("getitem", src, T("lv", L.args[0]))
                 if isinstance(e, Term) and e.op == "dim" and len(e.args[0].lin) == 1 and e.args[0].c == 0 and e.args[0].lin[0][0] == ("t", T("rowsof", want)):
@@ -1262,7 +1264,7 @@ def np_inv(interp, name, args, kw, st, node):
     if sh is not None and len(sh) == 3:
         # a stack of matrices: the inverse of each, i.e. [inv(h) for h in x]
         lid = "C%d" % (interp.cur().loop_depth + 1)
-        return fresh_arr(T("comp", lid, x.term, T("inv", T("getitem", x.term, T("lv", lid)))), sh, x.labels)
+        return fresh_arr(T("comp", lid, T("range", A.dim_term(Dim(0)), A.dim_term(sh[0])), T("inv", T("getitem", x.term, T("lv", lid)))), sh, x.labels)
     return fresh_arr(T("inv", x.term), sh, x.labels)
 
 
@@ -1302,7 +1304,8 @@ def np_slogdet(interp, name, args, kw, st, node):
         # a stack of matrices: sign and log-determinant of each
         lid = "C%d" % (interp.cur().loop_depth + 1)
         el = T("getitem", x.term, T("lv", lid))
-        return interp.mk_tuple([fresh_arr(T("comp", lid, x.term, T("slogdet_sign", el)), (sh0[0],), x.labels), fresh_arr(T("comp", lid, x.term, T("logdet", el)), (sh0[0],), x.labels)])
+        rng_ = T("range", A.dim_term(Dim(0)), A.dim_term(sh0[0]))
+        return interp.mk_tuple([fresh_arr(T("comp", lid, rng_, T("slogdet_sign", el)), (sh0[0],), x.labels), fresh_arr(T("comp", lid, rng_, T("logdet", el)), (sh0[0],), x.labels)])
     return interp.mk_tuple([V("float", T("slogdet_sign", x.term), shape=(), labels=x.labels), V("float", T("logdet", x.term), shape=(), labels=x.labels)])
 
 
